@@ -450,7 +450,7 @@ func runCheck(repo, verif, prop string, thorough, verbose, writeEvidence, update
 		}
 		points := map[pt]*Oblig{}
 		pointsAx := map[pt]*Oblig{}
-		var queries, queriesAx []*Oblig
+		var queries []*Oblig
 		guarded := append([]*Oblig{}, run.obls...)
 		if sweep != nil {
 			guarded = append(guarded, sweep.claimed...)
@@ -469,15 +469,38 @@ func runCheck(repo, verif, prop string, thorough, verbose, writeEvidence, update
 				// vacuous discharge it explains
 				qa := &Oblig{ID: "reachax:" + o.ID, Kind: "reach", Reach: o.Reach, Formula: "false", prel: o.prel, nline: o.nline, noRetry: true}
 				pointsAx[k] = qa
-				queriesAx = append(queriesAx, qa)
 			}
 		}
 		solveAll(queries, wd, timeout, false, 12)
-		axT := 3
-		if timeout < axT {
-			axT = timeout
+		// budget of the second question: a vacuous discharge and the contradiction behind it cost about the same, so
+		// points whose obligations all discharged within half a second get one second, the others three
+		slow := map[pt]bool{}
+		for _, o := range guarded {
+			if o.prel != nil && o.Time >= 0.5 {
+				slow[pt{o.prel, o.Reach, o.nline}] = true
+			}
 		}
-		solveAll(queriesAx, wd, axT, false, 12)
+		var axFast, axSlow []*Oblig
+		for k, qa := range pointsAx {
+			if slow[k] {
+				axSlow = append(axSlow, qa)
+			} else {
+				axFast = append(axFast, qa)
+			}
+		}
+		sort.Slice(axFast, func(i, j int) bool { return axFast[i].ID < axFast[j].ID })
+		sort.Slice(axSlow, func(i, j int) bool { return axSlow[i].ID < axSlow[j].ID })
+		tg0 := time.Now()
+		solveAll(axFast, wd, 1, false, 14)
+		tg1 := time.Now()
+		solveAll(axSlow, wd, 3, false, 12)
+		if os.Getenv("GCV_DEBUG_TIME") != "" {
+			res := map[string]int{}
+			for _, q := range append(append([]*Oblig{}, axFast...), axSlow...) {
+				res[q.Result]++
+			}
+			fmt.Fprintf(os.Stderr, "time: vacuity guard: %d points; with quantified facts: %d fast %.1fs, %d slow %.1fs, answers %v\n", len(queries), len(axFast), tg1.Sub(tg0).Seconds(), len(axSlow), time.Since(tg1).Seconds(), res)
+		}
 		for _, o := range guarded {
 			if o.prel == nil || o.Result != "unsat" {
 				continue
